@@ -15,6 +15,7 @@ import numpy as np
 
 from vf import lops
 from vf.monitors import STATE
+from vf.oracles.algebra import Spec
 from vf.common import Plan, crandn, held, violated, inconclusive, rng_for, nrm, inner
 
 SPEC = {
@@ -96,6 +97,7 @@ def run_case(case):
                 A.oshape, A.ishape, AH.oshape, AH.ishape), wit, mech="adjoint-shape")
         ish, osh = tuple(A.ishape), tuple(A.oshape)
         worst = 0.0
+        spec = Spec(lops.build, lops.scalar_value) if "parts" in desc or "A" in desc else None
         for k in range(4):
             if k < 3:
                 x = crandn(rng, ish, dt)
@@ -116,6 +118,13 @@ def run_case(case):
             # + ||x|| ||y||: floor for operators whose true action is (near) zero, where
             # both sides are rounding noise of intermediate O(1) quantities
             scale = nrm(Ax) * nrm(y) + nrm(x) * nrm(AHy) + 1e-3 * gain * nrm(x) * nrm(y)
+            if spec is not None and k == 0:
+                # modelled round-off level of this tree (see vf.oracles.algebra.Spec.noise)
+                nf = spec.noise(desc, x.astype(np.complex128))[1]
+                na = spec.noise(desc, y.astype(np.complex128), adjoint=True)[1]
+                rnd = 1e13 * (nf / max(nrm(x), 1e-300) + na / max(nrm(y), 1e-300))
+            if spec is not None:
+                scale += rnd * nrm(x) * nrm(y)
             err = abs(lhs - rhs)
             checks += 1
             rel = err / scale if scale > 0 else err
